@@ -64,6 +64,55 @@ CHECKS = {
         "Statement covers given >= 1 and positive weights; zero weights / zero given only for 'no exception but the documented one, no negative size'. Proportionality not judged when min_width binds. 'Remaining space otherwise' accepts the documented squeeze-margins-first behaviour.",
         "DESIGN.md §3 C19, §8",
     ),
+    "C03": (
+        "exploration",
+        "reference-model monitor: the layout structure returned by the real layout object and the rows Text renders are judged by an independent layout oracle (own UTF-8 / double-byte decoder + wcwidth); exhaustive over short strings of a 6-symbol alphabet, random beyond",
+        "Exhaustive strings (length <=3 always, 4-5 quick / up to 7 thorough as far as the time budget allows; completion is reported in counters) over {a, b, space, newline, wide, combining} x widths 1-6 x "
+        "4 wrap modes x 3 aligns x str and bytes x utf-8 / euc-jp / narrow, plus random strings to length 60 at widths to 40, on long-lived widgets reconfigured through set_text / wrap / align. Clauses: shown ranges disjoint and "
+        "increasing, every omitted character justified, fit, 'any' fill, 'space' breaks, alignment pad, rows() == rendered lines, unrenderable text -> one empty line, rendered bytes and charset flags == expected row.",
+        "A word is a maximal run of non-space narrow characters; a boundary next to a double-width character is a legal break; ellipsis mark may be any of '…', '...', '..', '.'; control characters and characters whose encoded length differs from their width are outside the alphabet.",
+        "DESIGN.md §3 C03, §8",
+    ),
+    "C05": (
+        "exploration",
+        "runtime monitor at Screen.parse_input / get_input with a virtual completion timer: every byte stream is delivered whole and under enumerated cut points x timer firings; a left-to-right partition invariant, an independent expected-event decoder for well-formed tokens and a metamorphic whole-vs-fragmented equality decide each case",
+        "Streams of well-formed tokens (all 468 table entries, X10 and SGR mouse reports over all button/modifier values and many coordinates, cursor-position reports, UTF-8 and double-byte characters, every byte 0-255) and garbage "
+        "(malformed / truncated escapes, invalid UTF-8, stray lead bytes); all single cuts and cut pairs for streams <=12 bytes x fire / no-fire, random k-cuts beyond; three encodings; the blocking get_input path under a virtual wait stub and a real pipe.",
+        "Expected names come from the documented input_sequences table (used as data) and from the xterm mouse protocol / ECMA-48 as re-implemented in vmon/models/c05_decoder.py. ESC followed by a report or by a 'meta' key, and reports textually equal to a table entry, are ambiguous and not judged for naming.",
+        "DESIGN.md §3 C05, §8",
+    ),
+    "C11": (
+        "exploration",
+        "reference-model monitor: str_util / util width functions are called on every boundary pair, target column and column range of generated texts and compared with vmon/models/width.py (wcwidth tables + strict UTF-8 / double-byte segmentation); exhaustive per Unicode scalar value in thorough",
+        "Every Unicode scalar value (thorough; quick: all below U+3000, table edges and a seed-offset stride) in each encoding whose alphabet contains it; exhaustive short sequences over class representatives incl. malformed UTF-8 and "
+        "double-byte lead/trail bytes, random texts; clauses for calc_width (additivity), calc_text_pos, move_next/prev_char (inverse laws), is_wide_char, within_double_byte, decode_one(_right), calc_trim_text, trim_text_attr_cs, apply_target_encoding.",
+        "Width = max(0, wcwidth); a malformed UTF-8 byte is one column; wide-mode strings with stand-alone 0x80/0xFF and empty trim ranges inside a wide character are not judged.",
+        "DESIGN.md §3 C11, §8",
+    ),
+    "C12": (
+        "fault_enumeration",
+        "fault injection over recorded sessions: a scripted MainLoop session on a real pty is run fault-free to number the callback invocations, then once per (invocation index x {ExitMainLoop, unique exception}); an offline checker over the callback log and a VT100 model fed with the bytes written to the pty decide ordering, redraw, exit and restoration",
+        "Sessions (keys, SGR mouse, focus/paste sequences, real SIGWINCH, 2 alarms, watch_pipe, watch_file, pop-up open/close) x 8 injection sites x 6 event loops x screen with / without hook_event_loop x pop_ups; each in a process forked "
+        "from a clean template interpreter (a sample is repeated in brand-new interpreters and must agree). Restoration is read from the terminal model (buffer, cursor, mouse/paste/focus modes, charset, SGR), termios, signal handlers and screen.started.",
+        "Callbacks already queued in the loop iteration in which the fault occurs may still run (the statement fixes only how run() ends). Redraw rule in logical form (>= 50 ms later alarm) confirmed by re-execution. quick enumerates select and asyncio fully, other loops at first/last/idle points.",
+        "DESIGN.md §3 C12, §8",
+    ),
+    "C15": (
+        "exploration",
+        "runtime invariant monitor + differential monitor: TermCanvas is fed generated byte streams (any chunking, resizes, view scrolling) with grid/cursor/region/reply invariants checked after every operation, and in lock-step with an independent VT100 model (vmon/models/vt.py) on the undisputed-core subset; mismatches are classified by named model quirks",
+        "Part A: grammar of well-formed and malformed CSI/OSC/charset sequences, truncated/invalid UTF-8, C0/C1, parameters 0/missing/huge, six encodings, focus on/off, resize to any size >= 1x1, scrolled-back view shape and content. "
+        "Part B: model-aware generator over print/autowrap/CR/LF/BS/CUP/CUx/EL/ED/ICH/DCH/IL/DL/DECSTBM/IND/RI/NEL/SGR; glyph, cursor, scrollback, replies and style of printed cells compared after every op. Part S: SGR state sequences.",
+        "vt.py is written from the xterm ctlseqs / VT100 manual; disputed corners (IL/DL cursor column, BCE of erased cells, scrollback from sub-regions) are excluded or aligned. Double-width glyphs and the 'utf-8' spelling of the encoding are outside part B.",
+        "DESIGN.md §3 C15, §8",
+    ),
+    "C17": (
+        "exploration",
+        "reference-model monitor in three stages: markup -> canvas (pairwise-distinct characters identify each cell's source), attribute-map chains -> canvas (positional fold model), palette -> SGR bytes decoded by the VT model and compared with an independent parse of the palette strings",
+        "(a) nested markup over distinct-character texts incl. wide/multi-byte/DEC glyphs through Text and Edit at widths 1-30 x 4 wraps x 3 aligns x 4 encodings; (b) chains of AttrMap/AttrWrap/fill_attr(_apply) around Pile/Columns with mutations between renders; "
+        "(c) every palette entry form x 5 colour depths x bright-is-bold, ordered attribute pairs, aliases, undefined names, AttrSpec objects, drawn through a started raw Screen.",
+        "The blank standing in for a cut wide character and the ellipsis may carry None or the adjoining character's attribute (the statement does not decide it). Colour rounding is C18's subject (slack accepted).",
+        "DESIGN.md §3 C17, §8",
+    ),
 }
 
 NA_REASON = "check not built yet in this round (see DESIGN.md §6 build order); no claim is made"
